@@ -121,6 +121,14 @@ CLAIMS = {
               "the same members, without any type, and evaluated with Eval: all variants that compile and succeed must "
               "return ObsEq values.",
               "DESIGN.md section 6 C15", "TLC-enumerated programs x inputs; differential real runs across type information"),
+    "C16": _c("model_checking",
+              "Resolve.tla states Go's selector rule (shallowest depth, ambiguity, method sets by receiver kind, exported "
+              "names) over struct shapes with embedded structs; TLC enumerates every legal shape up to the member bound in "
+              "every declaration order, checks ShadowingIsShallowest, and emits for each shape and name what the rule "
+              "says. The shapes are written out as Go types, built against /repo and populated; the rule is first "
+              "compared with Go's own resolution (reflect) on every name, then the real checker's verdict, the real "
+              "run-time lookup and the generated documentation are compared with each other and with the rule.",
+              "DESIGN.md section 6 C16", "TLA+ selector rule; TLC-enumerated struct shapes generated as Go types; checker, VM and docgen compared on each"),
     "C17": _c("model_checking",
               "Types!Overload states which occurrences of `+` become the call Add(l, r) (both operands statically int, by "
               "Types!TypeOf, which TLC checks against the generator's typing in every state); for every TLC-enumerated "
